@@ -19,7 +19,10 @@ R1 cartesian product: in every `combine` that calls `self._product`, each `_prod
 R2 dot product (`DotProductCombinator._product`): all pending tags are scanned, emission only when the port
    map is complete (`==`, same branch-fact recogniser: no yield reachable within the iteration from the other edge), every port list loses exactly one element per emission (`pop`/`popleft`) and that
    element is stored in the schema under its own port key, the number of emissions is the minimum list length,
-   emitted tokens are retagged with `get_tag` of the combination.
+   emitted tokens are retagged with `get_tag` of the combination.  Every call examines every pending bucket (one arriving
+   token can complete several buckets: a parent-tag token is broadcast by `_add_to_list` into every deeper bucket): the bucket
+   loop cannot be left early (`break` / `return` = CFG path from the loop body to the exit that avoids the loop head), and no
+   iteration bypasses its completeness test through a test on a loop-carried local (`if emitted: continue`).
 R3 propagation (`Combinator._add_to_list`): tag of a schema via `get_tag`, `depth` trailing components stripped,
    both directions of `_is_parent_tag` handled with the right operands under `propagate`, the equal tag is
    skipped, the scan over the stored tags cannot be left early (`break` / `return`: the entries registered later would
@@ -52,6 +55,7 @@ from ..facts import atoms, region
 from ..model import ancestors, dotted, parent, unparse, walk_no_nested
 from ..selftest import V
 from ._util_B import (
+    all_origins,
     any_origin,
     arg_of,
     branch_succ,
@@ -110,6 +114,20 @@ def _tv(e) -> bool:
 def _tv_at(e, key=None) -> bool:
     """`self._token_values[<key>]`"""
     return isinstance(e, ast.Subscript) and _tv(e.value) and (key is None or key(e.slice))
+
+
+def _tv_alias(f, e) -> bool:
+    """`self._token_values`, or a local every definition of which is `self._token_values` (the attribute is only mutated in
+    place, never rebound, so the alias denotes the same dict)."""
+    return _tv(e) or (isinstance(e, ast.Name) and all_origins(f, e, _tv))
+
+
+def _tv_at_alias(f, e, key=None) -> bool:
+    """`<self._token_values or alias>[<key>]`, or a local every definition of which is such a subscript."""
+    def one(o):
+        return isinstance(o, ast.Subscript) and not isinstance(o.slice, ast.Slice) and _tv_alias(f, o.value) and (key is None or key(o.slice))
+
+    return one(e) or (isinstance(e, ast.Name) and all_origins(f, e, one))
 
 
 def _len_items_cmp(f, e, tag_pred) -> bool:
@@ -913,6 +931,79 @@ def r2(ctx):
            message=f"dot _product: {why}: tokens of one combination leave with different tags")
 
 
+def _dot_scan_complete(ctx, f, g, loop, guard_ids):
+    """Every call of dot `_product` examines EVERY pending tag bucket.
+
+    One arriving token can complete several buckets at once: a token with a shallower (parent) tag is broadcast by
+    `_add_to_list` into every deeper bucket already waiting, so the number of buckets that became complete is not bounded
+    by one.  Whether a bucket is examined must therefore not depend on what happened for the buckets visited before it:
+    (a) the loop over the buckets cannot be left before the snapshot is exhausted (`break` / `return` -- a path from the
+        loop body to the function exit that does not pass the loop head);
+    (b) no iteration can bypass the completeness test of its bucket through a test on loop-carried state (a local that is
+        assigned inside the loop and reaches the test around the back edge: `if emitted: continue`) -- the same early exit
+        spelled without `break`.  Bypasses decided by per-iteration values only (a temporary computed from the current tag)
+        are not constrained here."""
+    from ..dataflow import defs_of
+
+    hid = g.ids_of(loop)
+    body = branch_succ(g, hid[0], "t") if hid else []
+    early = None
+    for s_ in body:
+        early = early or g.path(s_, [g.exit], avoid=hid)
+    leave = next((g.nodes[i] for i in (early or []) if g.nodes[i].kind in ("break", "return")), None)
+    ctx.ob("R2", "the scan over the pending tags is never left before every bucket was examined", bool(hid) and early is None, func=f,
+           node=(leave.ast if leave is not None and leave.ast is not None else loop), instance="dot._product:scan-complete",
+           message="dot _product can leave the scan over self._token_values early"
+                   + (f" (`{leave.text()}` at L{leave.lineno})" if leave is not None else "")
+                   + ": one arriving token can complete several tag buckets (a parent-tag token is broadcast into every deeper bucket), "
+                     "the complete buckets after that point are not emitted, so the emitted combinations depend on the arrival order",
+           witness=g.describe(early) if early else [])
+
+    def def_ids(d):
+        if d.stmt is None:
+            return []
+        return g.ids_of(d.stmt) or g.node_containing(d.stmt)
+
+    def carried(name, tid) -> bool:
+        """a definition of `name` inside the loop reaches test `tid` around the back edge"""
+        ds = [d for d in defs_of(f, name) if d.kind in ("assign", "aug", "walrus", "for", "with")]
+        kill = {i for d in ds for i in def_ids(d)}
+        if set(hid) & kill:
+            return False  # the loop target: fresh in every iteration
+        if tid not in g.reach(hid, avoid=kill):
+            return False
+        for d in ds:
+            if d.kind == "for" or not _within(d.stmt, loop):
+                continue
+            for i in def_ids(d):
+                if set(hid) & g.reach([i], avoid=kill - set(hid)):
+                    return True
+        return False
+
+    skip, names = None, []
+    if hid and guard_ids:
+        inside = g.reach(body, avoid=hid, include_src=True)
+        before = g.reach(body, avoid=list(guard_ids) + hid, include_src=True) - set(guard_ids)
+        for t in sorted(before):
+            tn = g.nodes[t]
+            if tn.kind != "test" or t not in inside or skip is not None:
+                continue
+            # one edge of the test leads back to the loop head without the completeness test of this bucket
+            bypass = any(b in hid or g.path(b, hid, avoid=list(guard_ids)) is not None
+                         for b, k in g.succ[t] if k in ("t", "f") and b not in guard_ids)
+            if not bypass:
+                continue
+            ns = sorted({x.id for x in ast.walk(tn.ast) if isinstance(x, ast.Name) and isinstance(x.ctx, ast.Load) and carried(x.id, t)})
+            if ns:
+                skip, names = tn, ns
+    ctx.ob("R2", "no bucket is skipped because of what happened for the buckets scanned before it", skip is None, func=f,
+           node=(skip.ast if skip is not None else loop), instance="dot._product:no-skip",
+           message="dot _product can skip the completeness test of a pending tag depending on "
+                   + ", ".join(f"`{n}`" for n in names) + " set while scanning the earlier tags"
+                   + (f" (`{skip.text()}` at L{skip.lineno})" if skip is not None else "")
+                   + ": one arriving token can complete several tag buckets, the later ones are not emitted")
+
+
 def _is_get_tag_value(p, f, g, e, ynode, rng) -> bool:
     """`e` is utils.get_tag(...) or a local assigned from it on every path to the yield (inside the emission loop)."""
     from ..dataflow import defs_of
@@ -946,9 +1037,9 @@ def r3(ctx):
         for c in node_calls(g, n):
             if self_call(c, "_add_to_port") and len(c.args) == 3 and is_param(f, c.args[0], tok) and is_param(f, c.args[2], port):
                 tv = c.args[1]
-                if method_call(tv, "setdefault") and _tv(tv.func.value) and len(tv.args) == 2 and isinstance(tv.args[0], ast.Name):
+                if method_call(tv, "setdefault") and _tv_alias(f, tv.func.value) and len(tv.args) == 2 and isinstance(tv.args[0], ast.Name):
                     finals.append((n.id, tv.args[0].id))
-                elif isinstance(tv, ast.Subscript) and _tv(tv.value) and isinstance(tv.slice, ast.Name):
+                elif isinstance(tv, ast.Subscript) and _tv_alias(f, tv.value) and isinstance(tv.slice, ast.Name):
                     finals.append((n.id, tv.slice.id))
     from ..dataflow import defs_of
 
@@ -1061,24 +1152,38 @@ def r3(ctx):
         for i in reg:
             for c in node_calls(g, g.nodes[i]):
                 if self_call(c, "_add_to_port") and len(c.args) == 3 and is_param(f, c.args[0], tok) and is_param(f, c.args[2], port) \
-                        and _tv_at(c.args[1], lambda k: is_name(k, keyv)):
+                        and _tv_at_alias(f, c.args[1], lambda k: is_name(k, keyv)):
                     ok = all(s == i or g.path(s, hid, avoid=[i]) is None for s in branch_succ(g, t.id, "t"))
     ctx.ob("R3", "a token with a parent tag is broadcast to every deeper stored tag", ok, func=f, node=(down[0].ast if down else loops[0]),
            instance="add_to_list:to-children", message="_add_to_list does not add a parent-tag token to the stored child tags (`_is_parent_tag(key, tag)` branch)")
     # parent direction: every stored token of the parent is copied under the new tag, port by port
     ok = False
     for t in up:
-        inner = [n for n in ast.walk(loops[0]) if isinstance(n, ast.For) and isinstance(n.target, ast.Name)]
-        pl = [n for n in inner if whole(f, n.iter, lambda e: _tv_at(e, lambda k: is_name(k, keyv)) or map_view(e, "keys", lambda m: _tv_at(m, lambda k: is_name(k, keyv))), ordered=False)]
-        for pl_ in pl:
-            pv = pl_.target.id
+        def parent_map(e):
+            return _tv_at_alias(f, e, lambda k: is_name(k, keyv))
+
+        # the ports of the parent tag: `for p in <tv>[key]` (/.keys()) + `<tv>[key][p]`, or `for p, lst in <tv>[key].items()` + `lst`
+        pl = []
+        for n in [n for n in ast.walk(loops[0]) if isinstance(n, ast.For)]:
+            if isinstance(n.target, ast.Name) and whole(f, n.iter, lambda e: parent_map(e) or map_view(e, "keys", parent_map), ordered=False):
+                pl.append((n, n.target.id, None))
+            elif isinstance(n.target, ast.Tuple) and len(n.target.elts) == 2 and all(isinstance(x, ast.Name) for x in n.target.elts) \
+                    and whole(f, n.iter, lambda e: map_view(e, "items", parent_map), ordered=False):
+                lv_ = n.target.elts[1].id
+                if all(d.kind == "for" and d.stmt is n for d in defs_of(f, lv_)):
+                    pl.append((n, n.target.elts[0].id, lv_))
+        for pl_, pv, lv in pl:
+            def port_list(e, pv=pv, lv=lv):
+                return (isinstance(e, ast.Subscript) and parent_map(e.value) and is_name(e.slice, pv)) or (lv is not None and is_name(e, lv))
+
             tl = [n for n in ast.walk(pl_) if isinstance(n, ast.For) and n is not pl_ and isinstance(n.target, ast.Name)
-                  and whole(f, n.iter, lambda e: isinstance(e, ast.Subscript) and _tv_at(e.value, lambda k: is_name(k, keyv)) and is_name(e.slice, pv), ordered=True)]
+                  and whole(f, n.iter, port_list, ordered=True)]
             for tl_ in tl:
                 tvn = tl_.target.id
                 for c in [c for c in calls_in(tl_) if self_call(c, "_add_to_port") and len(c.args) == 3]:
                     dst = c.args[1]
-                    dst_ok = (method_call(dst, "setdefault") and _tv(dst.func.value) and len(dst.args) == 2 and is_name(dst.args[0], tagv)) or _tv_at(dst, lambda k: is_name(k, tagv))
+                    dst_ok = (method_call(dst, "setdefault") and _tv_alias(f, dst.func.value) and len(dst.args) == 2 and is_name(dst.args[0], tagv)) \
+                        or _tv_at_alias(f, dst, lambda k: is_name(k, tagv))
                     if is_name(c.args[0], tvn) and dst_ok and is_name(c.args[2], pv):
                         hp, ht = g.ids_of(pl_), g.ids_of(tl_)
                         cn = g.node_containing(c)
@@ -1375,14 +1480,14 @@ class _Taint:
             return self.kind.get(e.id)
         if isinstance(e, ast.Subscript) and not isinstance(e.slice, ast.Slice):
             b = e.value
-            if _tv(b):
+            if _tv_alias(self.f, b):
                 return "M"
             kb = self.kind_of(b)
             return {"M": "L", "L": "U", "C": "U"}.get(kb) if kb else None
         if isinstance(e, ast.Call):
             if method_call(e) and e.func.attr in ("pop", "popleft") and self.kind_of(e.func.value) == "L":
                 return "U"
-            if method_call(e, "setdefault") and _tv(e.func.value):
+            if method_call(e, "setdefault") and _tv_alias(self.f, e.func.value):
                 return "M"
             if method_call(e) and e.func.attr in ("get", "setdefault") and self.kind_of(e.func.value) in ("M", "C"):
                 # `m.setdefault(port, deque())` is the stored port list, like `m[port]` / `m.get(port)`
@@ -1563,9 +1668,10 @@ def r5(ctx):
 RULES = [("R1", r1), ("R2", r2), ("R3", r3), ("R4", r4), ("R5", r5)]
 # R1: 2 combine() x (2 product calls + 2 add calls) + 2 cartesian product-operand checks + 4 cartesian shape checks;
 # + 1 composite-tag order check in cartesian _product (a second one, LoopCombinator._product, exists today but is not required);
+# R2: 6 shape checks + scan-complete + no-skip (seeded change C02 round 3 #2);
 # R3: 11 with the scan-complete check;
 # R5: 2 discriminated variables (Combinator._add_to_list token, dot _product element) + 3 undiscriminated (S11) today
-FLOORS = {"R1": 23, "R2": 6, "R3": 11, "R4": 6, "R5": 2}
+FLOORS = {"R1": 23, "R2": 8, "R3": 11, "R4": 6, "R5": 2}
 
 _CCOMB = f"{CART}.combine"
 _DCOMB = f"{DOT}.combine"
@@ -1577,6 +1683,8 @@ _ADD = f"{COMB}._add_to_list"
 _CPORT_BODY = ("    if port_name not in tag_values:\n        tag_values[port_name] = deque()\n    for t in tag_values[port_name]:\n"
                "        if t.tag == token.tag:\n            return\n    tag_values[port_name].append(token)")
 _BPORT_BODY = "    if port_name not in tag_values:\n        tag_values[port_name] = deque()\n    tag_values[port_name].append(token)"
+
+_ADD_BLOCK = ("    if propagate:\n        for key in list(self._token_values.keys()):\n            if tag == key:\n                continue\n            elif _is_parent_tag(key, tag):\n                self._add_to_port(token, self._token_values[key], port_name)\n            elif _is_parent_tag(tag, key):\n                for p in self._token_values[key]:\n                    for t in self._token_values[key][p]:\n                        self._add_to_port(t, self._token_values.setdefault(tag, {}), p)\n    self._add_to_port(token, self._token_values.setdefault(tag, {}), port_name)")
 
 VARIANTS = [
     # ---- R1
@@ -1637,6 +1745,22 @@ VARIANTS = [
     V("dot: retag with the map key computed before the loop", CFILE, _DPROD,
       "tag = utils.get_tag([t['token'] for t in schema.values()])\n                ", "", "R2"),
     V("dot: one off in the emission count", CFILE, _DPROD, "for _ in range(num_items):", "for _ in range(num_items - 1):", "R2"),
+    # every pending bucket is examined on every call (seeded change: `if num_items: break` after the first emitting bucket)
+    V("dot: scan stops after the first bucket that emitted", CFILE, _DPROD, "for k, t in schema.items()}",
+      "for k, t in schema.items()}\n            if num_items:\n                break", "R2", control=True),
+    V("dot: returns after the first complete bucket", CFILE, _DPROD, "for k, t in schema.items()}",
+      "for k, t in schema.items()}\n            return", "R2"),
+    V("dot: scan stops at the first incomplete bucket", CFILE, _DPROD, "        if len(self._token_values[tag]) == len(self.items):",
+      "        if len(self._token_values[tag]) != len(self.items):\n            break\n        if True:", "R2"),
+    V("dot: later buckets skipped through a loop-carried flag instead of break", CFILE, _DPROD,
+      "    for tag in list(self._token_values):\n        if len(self._token_values[tag]) == len(self.items):",
+      "    num_items = 0\n    for tag in list(self._token_values):\n        if num_items:\n            continue\n        if len(self._token_values[tag]) == len(self.items):", "R2"),
+    V("benign: empty bucket skipped through a per-iteration temporary", CFILE, _DPROD,
+      "    for tag in list(self._token_values):\n        if len(self._token_values[tag]) == len(self.items):",
+      "    for tag in list(self._token_values):\n        bucket = self._token_values[tag]\n        if not bucket:\n            continue\n        if len(self._token_values[tag]) == len(self.items):", None),
+    V("benign: emission counter kept across buckets (logging only)", CFILE, _DPROD,
+      "    for tag in list(self._token_values):\n        if len(self._token_values[tag]) == len(self.items):",
+      "    emitted = 0\n    for tag in list(self._token_values):\n        if emitted:\n            logger.debug(f'{emitted} buckets so far')\n        emitted += 1\n        if len(self._token_values[tag]) == len(self.items):", None),
     # ---- R3
     V("_is_parent_tag via str.startswith", SFILE, PARENT, "parent_idx = parent.split('.')\n    return tag.split('.')[:len(parent_idx)] == parent_idx", "return tag.startswith(parent)", "R3", control=True),
     V("_is_parent_tag compares the wrong prefix length", SFILE, PARENT, "[:len(parent_idx)]", "[:len(parent_idx) - 1]", "R3"),
@@ -1661,6 +1785,13 @@ VARIANTS = [
     V("benign: equal tag skipped with a nested test", SFILE, _ADD,
       "if tag == key:\n                continue\n            elif _is_parent_tag(key, tag):\n                self._add_to_port(token, self._token_values[key], port_name)\n            elif _is_parent_tag(tag, key):\n                for p in self._token_values[key]:\n                    for t in self._token_values[key][p]:\n                        self._add_to_port(t, self._token_values.setdefault(tag, {}), p)",
       "if tag != key:\n                if _is_parent_tag(key, tag):\n                    self._add_to_port(token, self._token_values[key], port_name)\n                elif _is_parent_tag(tag, key):\n                    for p in self._token_values[key]:\n                        for t in self._token_values[key][p]:\n                            self._add_to_port(t, self._token_values.setdefault(tag, {}), p)", None),
+    # local alias of self._token_values + items() instead of re-indexing (benign refactoring B18-3)
+    V("benign: _add_to_list through a local alias of self._token_values, parent ports via items()", SFILE, _ADD, _ADD_BLOCK,
+      "    token_values = self._token_values\n    if propagate:\n        for key in list(token_values):\n            if tag == key:\n                continue\n            elif _is_parent_tag(key, tag):\n                self._add_to_port(token, token_values[key], port_name)\n            elif _is_parent_tag(tag, key):\n                for p, ancestor_tokens in token_values[key].items():\n                    for t in ancestor_tokens:\n                        self._add_to_port(t, token_values.setdefault(tag, {}), p)\n    self._add_to_port(token, token_values.setdefault(tag, {}), port_name)", None),
+    V("alias form: the alias is a copy of self._token_values (the arriving token is stored in the copy only)", SFILE, _ADD, _ADD_BLOCK,
+      "    token_values = dict(self._token_values)\n    if propagate:\n        for key in list(token_values):\n            if tag == key:\n                continue\n            elif _is_parent_tag(key, tag):\n                self._add_to_port(token, token_values[key], port_name)\n            elif _is_parent_tag(tag, key):\n                for p, ancestor_tokens in token_values[key].items():\n                    for t in ancestor_tokens:\n                        self._add_to_port(t, token_values.setdefault(tag, {}), p)\n    self._add_to_port(token, token_values.setdefault(tag, {}), port_name)", "R3"),
+    V("alias form: parent tokens copied under the arriving port", SFILE, _ADD, _ADD_BLOCK,
+      "    token_values = self._token_values\n    if propagate:\n        for key in list(token_values):\n            if tag == key:\n                continue\n            elif _is_parent_tag(key, tag):\n                self._add_to_port(token, token_values[key], port_name)\n            elif _is_parent_tag(tag, key):\n                for p, ancestor_tokens in token_values[key].items():\n                    for t in ancestor_tokens:\n                        self._add_to_port(t, token_values.setdefault(tag, {}), port_name)\n    self._add_to_port(token, token_values.setdefault(tag, {}), port_name)", "R3"),
     # ---- R4
     V("driver: re-arm removed", SFILE, f"{CSTEP}.run",
       "\n                if task_name not in terminated:\n                    input_tasks.append(asyncio.create_task(self.get_input_ports()[task_name].get(posixpath.join(self.name, task_name)), name=task_name))", "", "R4"),
